@@ -420,7 +420,7 @@ Definition evalF (ev : env -> expr -> res value) (bind : env -> pat -> value -> 
       | D _ => Err
       end in
     match e with
-    | ELit v => Ok (D v)
+    | ELit v => Ok (D (norm v))      (* a literal denotes its canonical form *)
     | EVar x => match env_get x rho with Some v => Ok v | None => Err end
     | ESetE l => do vs <- mapM (evd rho) l; Ok (D (mkset vs))
     | ETupE l => do vs <- mapM (fun p => do v <- evd rho (snd p); Ok (fst p, v)) l; Ok (D (build_tuple vs))
